@@ -348,14 +348,16 @@ def run(ctx):
             blocked_f = blocked_g = False
             for s, cur, x in zip(sps, rd["curs"], calls):
                 dist["chain_calls"] += 1
-                # requirement formula and step-wise agreement on the observed inputs
+                # step-wise agreement on the observed inputs, and the requirement formula
+                terms.append(f"check_feed {tol} {fq(sc)} {feeder_term(x['rum'], cur, x['req'], s['eg'], s['ef'])} {fq(x['g'])} {fq(x['f'])} {fql(x['out'])}")
+                meta.append(("feed_animals step", case))
                 if exact:
-                    terms.append(f"check_req 0 {fq(s['lsu'] * c['one_lsu'] / 2.0 ** -12 if False else s['lsu'])} {fq(s['lsuf'])} {fq(cur)} "
-                                 f"{fq(x['req'] / c['one_lsu'] * 1.0)}" if False else
-                                 f"check_feed 0 {fq(sc)} {feeder_term(x['rum'], cur, x['req'], s['eg'], s['ef'])} {fq(x['g'])} {fq(x['f'])} {fql(x['out'])}")
+                    if Fraction(x["req"]) != Fraction(s["lsu"]) * Fraction(c["one_lsu"]) * Fraction(s["lsuf"]) * Fraction(cur):
+                        ctx.violation("C07:requirement@reset_NE_balance", f"requirement {x['req']!r} is not LSU*one_LSU*factor*herd",
+                                      {"kind": "counterexample", "case": case})
                 else:
                     terms.append(f"check_req (1#1000000000000) {fq(s['lsu'])} {fq(s['lsuf'])} {fq(cur)} {fq(x['req'])}")
-                meta.append(("feed_animals step / requirement", case))
+                    meta.append(("requirement formula", case))
                 what = f"herd {x['i']} ({s['dig']}) of {len(sps)}: herd {cur!r}, required {x['req']!r}, grass {x['g']!r}, feed {x['f']!r}"
                 naudit += 1
                 if x["g"] != g or x["f"] != f:
